@@ -1675,11 +1675,13 @@ class tst(exp):
         l = self.l.eval(env)
         r = self.r.eval(env)
         if not cond._is_cst:
-            return tst(cond, l, r)
-        if cond.v == 1:
-            return l
+            res = tst(cond, l, r)
+        elif cond.v == 1:
+            res = l
         else:
-            return r
+            res = r
+        res.sf = self.sf
+        return res
 
     def simplify(self, **kargs):
         self.tst = self.tst.simplify(**kargs)
